@@ -525,68 +525,6 @@ class _Violation(Exception):
         self.v = {"clause": clause, "site": site, "detail": detail}
 
 
-class _Baton(object):
-    """One real worker thread next to the main thread.  Exactly one of the two runs at any time: the other one is
-    parked on a queue, so the interleaving is decided by the trace, not by the OS (and replays exactly)."""
-
-    def __init__(self):
-        import queue
-        self.to_worker = queue.Queue()
-        self.to_main = queue.Queue()
-        self.thread = None
-
-    def _loop(self):
-        while True:
-            fn = self.to_worker.get()
-            if fn is None:
-                return
-            try:
-                out = ("ok", fn())
-            except BaseException as e:  # noqa
-                out = ("exc", e)
-            self.to_main.put(("done", out))
-
-    def _ensure(self):
-        import threading
-        if self.thread is None:
-            self.thread = threading.Thread(target=self._loop, name="xsim-second-party", daemon=True)
-            self.thread.start()
-
-    def on_worker(self, fn):
-        """called on the main thread: run fn on the worker, serving its requests to run something on main"""
-        self._ensure()
-        self.to_worker.put(fn)
-        while True:
-            kind, payload = self.to_main.get()
-            if kind == "call":
-                try:
-                    r = ("ok", payload())
-                except BaseException as e:  # noqa
-                    r = ("exc", e)
-                self.reply.put(r)
-            else:
-                if payload[0] == "exc":
-                    raise payload[1]
-                return payload[1]
-
-    def on_main_from_worker(self, fn):
-        """called on the worker thread (inside a trace function): run fn on the main thread and wait"""
-        import queue
-        if not hasattr(self, "reply"):
-            self.reply = queue.Queue()
-        self.to_main.put(("call", fn))
-        kind, val = self.reply.get()
-        if kind == "exc":
-            raise val
-        return val
-
-    def stop(self):
-        if self.thread is not None:
-            self.to_worker.put(None)
-            self.thread.join(5)
-            self.thread = None
-
-
 def execute(trace):
     """Pure function of (trace, code under test).  Returns the run record."""
     import numpy as np
@@ -633,25 +571,19 @@ def execute(trace):
     n_assign = n_call = 0
     inputs = trace["inputs"]
 
-    import queue as _queue
-    import threading as _threading
-    baton = _Baton()
-    baton.reply = _queue.Queue()
+    from . import sched as _sched
+    S = _sched.begin()
     thr = trace["config"].get("threads")        # per-op thread id (0 main, 1 the real second thread) or None
-    main_ident = _threading.get_ident()
 
     def run_on(t, fn):
         """run fn on thread t (called from the main thread)"""
-        if not t:
-            return fn()
-        count("threads.ops_on_second_thread")
-        return baton.on_worker(fn)
+        if t:
+            count("threads.ops_on_second_thread")
+        return S.run_on(t, fn)
 
     def on_other(fn):
-        """run fn on the thread that is NOT the current one (called from inside a trace function)"""
-        if _threading.get_ident() == main_ident:
-            return baton.on_worker(fn)
-        return baton.on_main_from_worker(fn)
+        """the OTHER real thread runs fn while the current one is parked (called from inside a trace function)"""
+        return S.on_other(fn)
 
     def read_switch():
         return xfab.CHECKS.activated
@@ -808,6 +740,7 @@ def execute(trace):
         finally:
             if use_trace:
                 sys.settrace(None)
+            S.finish_other()
         if outcome == "ok" and scribble_rate[0] and (len(events) * 7 + len(fk)) % 3 == 0:
             # the caller owns what it was handed back and may reuse it as scratch space; later calls must not care.
             # (deterministic choice; the canonical value is taken first)
@@ -936,13 +869,10 @@ def execute(trace):
                         else:
                             def action0():
                                 res["raised"] = do_assign(tag)
-                        if thr:
+                        def action():
                             # the second party is a real thread: the action runs there while this one is parked
-                            def action():
-                                count("threads.preemptions_on_other_thread")
-                                on_other(action0)
-                        else:
-                            action = action0
+                            count("threads.preemptions_on_other_thread")
+                            on_other(action0)
                         outcome, value, nline2, fired = run_on(t_op, lambda: call(fk, iid, inject=(at, action)))
                         if second_call:
                             count("fault.preempting_guarded_call")
@@ -984,7 +914,9 @@ def execute(trace):
         finally:
             sys.settrace(None)
             try:
-                baton.stop()
+                for k_, v_ in S.stats.items():
+                    count("probe." + k_, v_)
+                _sched.end()
             except Exception:
                 pass
             try:
